@@ -1,6 +1,8 @@
 package props
 
 import (
+	"go/token"
+	"go/types"
 	"fmt"
 	"sort"
 	"strings"
@@ -8,6 +10,7 @@ import (
 	"golang.org/x/tools/go/ssa"
 
 	"rtcpverif/bits"
+	"rtcpverif/core"
 	"rtcpverif/num"
 	"rtcpverif/spec"
 )
@@ -156,7 +159,7 @@ func checkC04(c *Ctx) {
 	r := c.Rep
 	p := c.Prog
 	r.Explain = "Bit-provenance abstract interpretation of every Unmarshal on an unconstrained input: the decoder's map field bit <- input octet/bit at its successful returns, valid for every input, is compared with the RFC layout tables: each field is taken from exactly its specified wire bits (big-endian), bits above the wire width are zero, and no field depends on a reserved or padding bit (the comparison is an equality of maps, so a stray dependency shows). CNT: for SR, RR and SDES the numeric engine entails at every nil-error return that the number of decoded elements equals the header count (an inflated count cannot be accepted). XR: unpackBlockHeader inverts the RFC 3611 type-specific octet, the block type switch has UnknownReportBlock as default arm, blocks are split at 4*(BlockLength+1) (C15's rules)."
-	r.RuleText = "C04-LAY per unit; C04-CNT; C04-XR (C15-TS/DSP/BL)."
+	r.RuleText = "C04-LAY per unit; C04-CNT; C04-FRESH (a composite appended to a list inside a decoder loop is allocated or wholly re-assigned inside that loop); C04-XR (C15-TS/DSP/BL)."
 	r.Trusted = []string{"go/ssa", "checker/bits", "checker/num", "layout tables props/layout.go"}
 	r.Assume = []string{"decoder receivers are zero values"}
 	r.NotCov("alternative TWCC chunkings and StatusVectorChunk symbols, RecvDelta scaling (C13), REMB mantissa/exponent arithmetic (C14), SDES/BYE texts, APP padding, CCFB report blocks (data-dependent offsets); BYE's count guard (its Sources list is filled by an index loop the bit engine does not summarise)")
@@ -181,6 +184,7 @@ func checkC04(c *Ctx) {
 	}
 	r.Floor("C04-LAY", 12)
 	c04Counts(c)
+	c04Fresh(c)
 	// XR
 	hdr := p.Named("XRHeader")
 	if hdr == nil {
@@ -508,4 +512,172 @@ func c15RoundTrip(c *Ctx) {
 		}
 		r.Check(len(bad) == 0, "C02-XR", b+"/type-specific-round-trip", p.Pos(setup.Pos()), fmt.Sprintf("%d field bit(s) written and read back at the same positions", nbits), trunc(bad, 2))
 	}
+}
+
+// ---------------------------------------------------------------- C04-FRESH
+
+// c04Fresh: in every decoder, a composite value appended to a list inside a loop is fresh in each
+// iteration: it is loaded from (or points to) an allocation made inside that loop, or the whole variable
+// is re-assigned inside the loop before the append. A variable hoisted out of the loop would carry the
+// previous element's fields (and slices) into the next element.
+func c04Fresh(c *Ctx) {
+	r := c.Rep
+	p := c.Prog
+	nsites := 0
+	for _, spec := range DecoderRoots() {
+		fn := p.Func(spec)
+		if fn == nil {
+			continue
+		}
+		// helper decoders reachable one level down are roots of their own in DecoderRoots
+		loops := loopBlocksWithHeaders(fn)
+		for _, b := range fn.Blocks {
+			hdr := loops[b]
+			if hdr == nil {
+				continue
+			}
+			for _, in := range b.Instrs {
+				call, ok := in.(*ssa.Call)
+				if !ok {
+					continue
+				}
+				bi, ok := call.Common().Value.(*ssa.Builtin)
+				if !ok || bi.Name() != "append" || len(call.Common().Args) != 2 {
+					continue
+				}
+				sl, ok := call.Common().Args[1].(*ssa.Slice)
+				if !ok {
+					continue
+				}
+				arr, ok := sl.X.(*ssa.Alloc)
+				if !ok {
+					continue
+				}
+				// the element(s) stored into the variadic array
+				for _, ref := range *arr.Referrers() {
+					ia, ok := ref.(*ssa.IndexAddr)
+					if !ok {
+						continue
+					}
+					for _, r2 := range *ia.Referrers() {
+						st, ok := r2.(*ssa.Store)
+						if !ok || st.Addr != ssa.Value(ia) {
+							continue
+						}
+						var src *ssa.Alloc
+						switch v := st.Val.(type) {
+						case *ssa.UnOp: // value loaded from a local variable
+							if a, ok := v.X.(*ssa.Alloc); ok && v.Op == token.MUL {
+								src = a
+							}
+						case *ssa.Alloc: // pointer to a heap variable
+							src = v
+						case *ssa.MakeInterface:
+							if a, ok := v.X.(*ssa.Alloc); ok {
+								src = a
+							}
+						case *ssa.Phi: // interface built on several paths: every edge must be fresh
+							allFresh := true
+							found := false
+							for _, e := range v.Edges {
+								if mi, ok := e.(*ssa.MakeInterface); ok {
+									if a, ok := mi.X.(*ssa.Alloc); ok {
+										found = true
+										if !inSameLoop(a.Block(), hdr, loops) {
+											allFresh = false
+										}
+										continue
+									}
+								}
+								if k, ok := e.(*ssa.Const); ok && k.IsNil() {
+									continue
+								}
+								allFresh = false
+							}
+							if found {
+								nsites++
+								r.Check(allFresh, "C04-FRESH", fmt.Sprintf("%s/appended-element-is-fresh#%d", core.FuncName(fn), nsites), p.Pos(call.Pos()),
+									"every allocation that can reach this append is made inside the loop", "an element appended in a loop can come from an allocation made outside the loop (state leaks between elements)")
+							}
+							continue
+						}
+						if src == nil {
+							continue // scalars and freshly built values (composite literals are Allocs too)
+						}
+						if _, isStruct := src.Type().Underlying().(*types.Pointer).Elem().Underlying().(*types.Struct); !isStruct {
+							continue
+						}
+						nsites++
+						fresh := inSameLoop(src.Block(), hdr, loops)
+						if !fresh {
+							// re-assigned as a whole inside the loop before the append?
+							for _, r3 := range *src.Referrers() {
+								if s3, ok := r3.(*ssa.Store); ok && s3.Addr == ssa.Value(src) && inSameLoop(s3.Block(), hdr, loops) && s3.Block().Dominates(call.Block()) {
+									fresh = true
+								}
+							}
+						}
+						r.Check(fresh, "C04-FRESH", fmt.Sprintf("%s/appended-element-is-fresh#%d", core.FuncName(fn), nsites), p.Pos(call.Pos()),
+							"the appended variable is allocated (or wholly re-assigned) inside the loop: each element starts from a zero value", "the appended variable lives outside the loop and is not wholly re-assigned in it: fields the decoder does not set keep the previous element's values")
+					}
+				}
+			}
+		}
+	}
+	if nsites < 6 {
+		r.Fatalf("C04-FRESH: only %d append-in-loop sites found in the decoders (expected at least 6)", nsites)
+	}
+}
+
+// loopBlocksWithHeaders maps every block that lies in a natural loop to the header of its innermost loop.
+func loopBlocksWithHeaders(fn *ssa.Function) map[*ssa.BasicBlock]*ssa.BasicBlock {
+	out := map[*ssa.BasicBlock]*ssa.BasicBlock{}
+	size := map[*ssa.BasicBlock]int{}
+	for _, b := range fn.Blocks {
+		for _, s := range b.Succs {
+			if !s.Dominates(b) {
+				continue
+			}
+			body := map[*ssa.BasicBlock]bool{s: true}
+			stack := []*ssa.BasicBlock{b}
+			for len(stack) > 0 {
+				x := stack[len(stack)-1]
+				stack = stack[:len(stack)-1]
+				if body[x] {
+					continue
+				}
+				body[x] = true
+				stack = append(stack, x.Preds...)
+			}
+			for x := range body {
+				if old, ok := out[x]; !ok || len(body) < size[old] {
+					out[x] = s
+				}
+			}
+			if len(body) > size[s] {
+				size[s] = len(body)
+			}
+		}
+	}
+	return out
+}
+
+func inSameLoop(b, hdr *ssa.BasicBlock, loops map[*ssa.BasicBlock]*ssa.BasicBlock) bool {
+	// b is inside the loop headed by hdr (possibly in a nested loop of it)
+	for h := loops[b]; h != nil; {
+		if h == hdr {
+			return true
+		}
+		// climb to the enclosing loop: the innermost loop of the header's immediate dominator
+		d := h.Idom()
+		if d == nil {
+			return false
+		}
+		nh := loops[d]
+		if nh == h {
+			return false
+		}
+		h = nh
+	}
+	return false
 }
